@@ -39,6 +39,49 @@ def template(rng, k):
     return "\n".join(lines) + "\n", exp
 
 
+def layouts():
+    """every ORDER in which fields (f), methods (m), operators (o) and a doc string (d) can follow each other in a class body
+    of up to four members, with and without class arguments / a parent / an explicit constructor: each definition of the body
+    is a definition of the emitted class, whatever stands around it"""
+    import itertools
+    out = []
+    k = 0
+    for n in (2, 3, 4):
+        for shape in itertools.product("fmod", repeat=n):
+            if shape.count("d") > 1 or shape.count("o") > 1 or ("m" not in shape and "o" not in shape):
+                continue
+            for head in ("plain", "args", "parent", "init"):
+                if head != "plain" and (n == 4 or k % 3):      # the other class heads on a third of the shapes
+                    k += 1
+                    continue
+                k += 1
+                name = "L%d" % k
+                lines, exp = [], {}
+                if head == "parent":
+                    lines += ["class P%d(def pz: Int)" % k]
+                lines.append({"plain": "class %s" % name, "args": "class %s(def ca: Int, def cb: Int := 2)" % name,
+                              "parent": "class %s(def ca: Int): P%d(ca)" % (name, k), "init": "class %s" % name}[head])
+                exp[name] = ("class", [], ["P%d" % k] if head == "parent" else [])
+                if head in ("args", "parent"):
+                    exp[name + ".__init__"] = ("fun", [("self", False, False), ("ca", False, False)] + ([("cb", True, False)] if head == "args" else []), [])
+                for i, c in enumerate(shape):
+                    if c == "f":
+                        lines.append("    def f%d: Int := %d" % (i, i))
+                    elif c == "m":
+                        lines.append("    def m%d(self, by: Int := 1) -> Int => by + %d" % (i, i))
+                        exp["%s.m%d" % (name, i)] = ("fun", [("self", False, False), ("by", True, False)], [])
+                    elif c == "o":
+                        lines.append("    def +(fin self, o: %s) -> Int => 1" % name)
+                        exp[name + ".__add__"] = ("fun", [("self", False, False), ("o", False, False)], [])
+                    else:
+                        lines.append('    """about %s"""' % name)
+                if head == "init":
+                    lines.append("    def __init__(self, start: Int) => print(start)")
+                    exp[name + ".__init__"] = ("fun", [("self", False, False), ("start", False, False)], [])
+                out.append(("\n".join(lines) + "\n", exp))
+    return out
+
+
 def expected_of(prog):
     exp = {}
     for kind, x in prog.items:
@@ -67,6 +110,8 @@ def run(chk):
         return
     rng = chk.rng
     cases = [template(rng, k) for k in range(60 if thorough else 12)]
+    lay = layouts()
+    cases += lay if thorough else rng.sample(lay, 120)
     for _ in range(200 if thorough else 30):
         p = gen_prog.Gen(rng).program()
         cases.append((p.text, expected_of(p)))
